@@ -502,6 +502,16 @@ def bounded_entry_points(seed, tier):
             R, t = rotation_matrix(rng), rng.uniform(-5, 5, size=3)
             perm = rng.permutation(len(Z))
             c = mol_of(Z[perm], (P @ R.T + t)[perm]).shape_descriptors(l_max=L, **kw)
+            # the SAME object moved in place after it has been described (and its centroid / centre of mass read)
+            m_same = mol_of(Z, P)
+            _ = (m_same.shape_descriptors(l_max=L, **kw), m_same.centroid, m_same.center_of_mass)
+            m_same.rotate(R, origin=(0, 0, 0))
+            m_same.translate(t)
+            c_same = m_same.shape_descriptors(l_max=L, **kw)
+            evals += 1
+            if not desc_err(a, c_same, L) <= ROT_CAP[L]:
+                _add_fail(fails, {"input": {"system": s["name"], "Zi": Z.tolist(), "Pi": P.tolist(), "kwargs": kw, "history": "describe; rotate and translate the same Molecule in place; describe"},
+                                  "observed": {"normalised_change": desc_err(a, c_same, L), "allowed": ROT_CAP[L]}, "clause": "a Molecule moved in place after it was described has the same descriptor", "key": key})
             evals += 1
             if not desc_err(a, c, L) <= ROT_CAP[L]:
                 _add_fail(fails, {"input": {"system": s["name"], "Zi": Z.tolist(), "Pi": P.tolist(), "kwargs": kw, "rotation": R.tolist(), "translation": t.tolist(), "permutation": perm.tolist()},
@@ -558,6 +568,22 @@ def bounded_entry_points(seed, tier):
                 tr = trace_descriptor("stockholder", SHT(L), mol.atomic_numbers, mol.positions, ne, npos, origin=cen.astype(np.float32), bounds=(d.min() / 2, d.max() + 10.0), with_property=prop)
                 want.append(tr.result)
                 one = c.molecule_shape_descriptors(mol, l_max=L, radius=3.8, with_property=prop)
+                # the same molecule object described again after it was moved by a lattice vector (a copy and in place): a symmetry-equivalent pose in the crystal
+                lat = np.asarray(c.unit_cell.direct)[int(rng.integers(0, 3))]
+                try:
+                    moved = mol.translated(lat)
+                    again = c.molecule_shape_descriptors(moved, l_max=L, radius=3.8, with_property=prop)
+                    moved.translate(-2 * lat)
+                    again2 = c.molecule_shape_descriptors(moved, l_max=L, radius=3.8, with_property=prop)
+                    e_mv = max(desc_err(np.asarray(one), np.asarray(again), L), desc_err(np.asarray(one), np.asarray(again2), L))
+                    obs_mv = {"normalised_change": e_mv, "allowed": ROT_CAP[L]}
+                except Exception as ex:  # noqa
+                    e_mv, obs_mv = float("inf"), {"raised": repr(ex)[:200]}
+                evals += 1
+                if not e_mv <= ROT_CAP[L]:
+                    _add_fail(fails, {"input": {"crystal": cname, "with_property": prop, "history": "describe mol; mol.translated(lattice vector); describe; translate(-2 lattice vectors) in place; describe"},
+                                      "observed": obs_mv, "clause": "a molecule moved by a lattice vector (after it was already described once) has the same descriptor in the crystal",
+                                      "key": "Crystal.molecule_shape_descriptors"})
                 evals += 1
                 if not relerr(np.asarray(tr.result), np.asarray(one)) <= 1e-6:
                     _add_fail(fails, {"input": {"crystal": cname, "with_property": prop}, "observed": {"relerr": relerr(np.asarray(tr.result), np.asarray(one))},
